@@ -103,6 +103,17 @@ func c16Family(j *Job) []xferCase {
 			},
 			Kill: []killRule{{SID: 1, Msg: 1, Frag: 1, N: 1}}}
 		cases = append(cases, xferCase{Name: "KILL/" + mode.Name, K: 1, Spec: spec})
+		// two consecutive ordered messages abandoned together: with the shifted cursors their
+		// sequence numbers lie on both sides of the wrap inside one FORWARD-TSN
+		for ki, lost := range [][2]int{{0, 1}, {1, 2}} {
+			s2 := &xferSpec{A: withBase(mode.A, mtu, 0, 4000), B: withBase(mode.B, mtu, 0, 4000), Faults: faultSet{Drop: true, Late: true}, Interleave: true,
+				Streams: []streamSpec{
+					{SID: 1, From: 0, RelType: ReliabilityTypeRexmit, RelVal: 0, Msgs: []msgSpec{{Size: 20, PPI: 53}, {Size: 21, PPI: 53}, {Size: 22, PPI: 53}, {Size: 23, PPI: 53}, {Size: 24, PPI: 53}}},
+					{SID: 2, From: 0, Msgs: []msgSpec{{Size: P + 3, PPI: 53}, {Size: 30, PPI: 53}}},
+				},
+				Kill: []killRule{{SID: 1, Msg: lost[0], Frag: -1, N: 1}, {SID: 1, Msg: lost[1], Frag: -1, N: 1}}}
+			cases = append(cases, xferCase{Name: fmt.Sprintf("KILL2.%d/%s", ki, mode.Name), K: 0, Spec: s2})
+		}
 	}
 	return cases
 }
